@@ -18,22 +18,31 @@ fn digest(xs: &[u32]) -> String {
     format!("{}:{}", xs.len(), h)
 }
 
-/// Canonical text of the representation, from the derived `Debug` impls:
-/// `Vector{root:Some(I[L[1,2],L[3]]),length:3,height:1}`, `Slice{vec:Vector{..},start:0,end:3}`.
+/// Text of the representation: the derived `Debug` output of `Vector`/`Slice`, e.g.
+/// `Vector { root: Some(Interior { children: Chunk[Leaf { data: Chunk[1, 2] }, Leaf { data: Chunk[3] }] }), length: 3, height: 1 }`.
+/// The model driver (ocaml/c17/driver.ml) prints the same text for its trees.
 fn shape<T: std::fmt::Debug>(x: &T) -> String {
-    format!("{:?}", x)
-        .replace("Interior { children: Chunk[", "I[")
-        .replace("Leaf { data: Chunk[", "L[")
-        .replace("] }", "]")
-        .replace(' ', "")
+    format!("{:?}", x).replace(' ', "") // printed in the END section only; spaces separate fields there
 }
 
-fn sdigest(s: &str) -> u64 {
-    let mut h: u64 = 5;
-    for b in s.bytes() {
-        h = (h * 131 + (b as u64)) % 1_000_000_007;
+/// Rolling hash of the `Debug` text, computed while it is being written (no allocation).
+struct HashWriter(u64);
+impl std::fmt::Write for HashWriter {
+    fn write_str(&mut self, s: &str) -> std::fmt::Result {
+        let mut h = self.0;
+        for b in s.bytes() {
+            h = (h * 131 + (b as u64)) % 1_000_000_007;
+        }
+        self.0 = h;
+        Ok(())
     }
-    h
+}
+
+fn sdigest<T: std::fmt::Debug>(x: &T) -> u64 {
+    use std::fmt::Write;
+    let mut w = HashWriter(5);
+    write!(w, "{:?}", x).unwrap();
+    w.0
 }
 
 fn parse_list(s: &str) -> Vec<u32> {
@@ -81,6 +90,15 @@ macro_rules! runner {
                                     "vg" => { let i = num(a1); let r = v.get(i).copied(); if r != t.get(i).copied() { "!TWIN".into() } else { match r { Some(x) => format!("some{x}"), None => "none".into() } } }
                                     "vt" => { let n = num(a1); v.truncate(n); t.truncate(n); "ok".into() }
                                     "ve" => { let l = parse_list(a1); v.extend(l.iter().copied()); t.extend(l); "ok".into() }
+                                    "vm" => {
+                                        // iter_mut_starting_at(i): every element handed out is bumped by d (mod 10)
+                                        let (i, d) = (num(a1), num(a2) as u32);
+                                        match catch_unwind(AssertUnwindSafe(|| { for x in v.iter_mut_starting_at(i) { *x = (*x + d) % 10; } })) {
+                                            Ok(()) => { if i <= t.len() { for x in t[i..].iter_mut() { *x = (*x + d) % 10; } } "ok".into() }
+                                            Err(_) => "panic".into(),
+                                        }
+                                    }
+                                    "va" => { let d = num(a1) as u32; for x in v.iter_mut() { *x = (*x + d) % 10; } for x in t.iter_mut() { *x = (*x + d) % 10; } "ok".into() }
                                     "vi" => {
                                         let i = num(a1);
                                         match catch_unwind(AssertUnwindSafe(|| v.iter_starting_at(i).copied().collect::<Vec<u32>>())) {
@@ -129,6 +147,7 @@ macro_rules! runner {
                                         }
                                     }
                                     "se" => { let l = parse_list(a1); s.extend(l.iter().copied()); t.extend(l); "ok".into() }
+                                    "sm" => { let d = num(a1) as u32; for x in s.iter_mut() { *x = (*x + d) % 10; } for x in t.iter_mut() { *x = (*x + d) % 10; } "ok".into() }
                                     "si" => { let l: Vec<u32> = s.iter().copied().collect(); if &l != t { "!TWIN".into() } else { format!("it{}", digest(&l)) } }
                                     _ => "badop".into(),
                                 }
@@ -143,8 +162,10 @@ macro_rules! runner {
                     if let Some((v, t)) = h {
                         let l: Vec<u32> = v.iter().copied().collect();
                         if &l != t || v.len() != t.len() { out.push_str("!TWIN"); }
+                        let l2: Vec<u32> = v.clone().into_iter().collect();
+                        if l2 != l { out.push_str("!TWIN"); }
                         if catch_unwind(AssertUnwindSafe(|| v.check_invariants())).is_err() { out.push_str("!INV"); }
-                        out.push_str(&format!("v{i}={}~{}|", digest(&l), sdigest(&shape(v))));
+                        out.push_str(&format!("v{i}={}~{}|", digest(&l), sdigest(v)));
                     }
                 }
                 for (i, h) in ss.iter().enumerate() {
@@ -153,7 +174,7 @@ macro_rules! runner {
                         if &l != t || s.len() != t.len() { out.push_str("!TWIN"); }
                         let l2: Vec<u32> = s.clone().into_iter().collect();
                         if l2 != l { out.push_str("!TWIN"); }
-                        out.push_str(&format!("s{i}={}~{}|", digest(&l), sdigest(&shape(s))));
+                        out.push_str(&format!("s{i}={}~{}|", digest(&l), sdigest(s)));
                     }
                 }
                 out.push(' ');
